@@ -8,6 +8,22 @@ CHECKS = {
  'C01': dict(cat='model_checking', tech='trace validation of generated sessions against the TLA+ reference semantics SchemeCEK with TLC',
    text='Every generated session (typed grammar over all core and derived forms, failure injection) and the hand-stated R7RS corpus is executed by the real VM (fresh, and after unrelated definitions) and validated form by form by TLC against the CEK machine of spec/SchemeCEK.tla: value, failure, error payload and output must match. Exhaustive only over the corpus; the grammar is sampled (400 quick / 20000 thorough sessions).',
    note='Trusted: TLC/SANY/Json module, the Cell->JSON projection, my reading of R7RS encoded in SchemeCEK (regression: corpus/r7rs.scm). Sessions leaving the model (big integers, R7RS-unspecified steps) are abandoned and counted.', ref='5 C01'),
+
+ 'C02': dict(cat='model_checking', tech='trace validation of scope-skeleton sessions against the TLA+ reference semantics SchemeCEK (environment = name->location) with TLC',
+   text='Scope skeletons (nested procedures over a,b,c; parameter / rest / internal definition / free per level; set! before and after closure creation; closures invoked inside the creator, after its return, repeatedly; closures made in loops) log every read; the real VM runs them and TLC validates the complete read log against the CEK machine, whose environments map names to store locations, one location per binding per activation. Exhaustive for one level (216) in quick and for two levels (11664) in thorough; three and four levels sampled.',
+   note='Same trusted base as C01. The instruction-level environment model (slot indirection) is not part of this check.', ref='5 C02'),
+ 'C03': dict(cat='model_checking', tech='trace validation under forced collection schedules against the collector-free TLA+ semantics SchemeCEK; (structural half: MarwoodGC/Trace_GC)',
+   text='The CEK machine has no collector, so a single behaviour of it is the oracle for every collection schedule: each session (allocation-heavy templates, C01/C02/C05 generators) is executed with no forced collection, with a collection forced before every k-th instruction (k in 1..16) and under pseudo-random schedules, and every run is validated by TLC against that behaviour.',
+   note='Collections are forced through the verif hook at instruction boundaries (the place where natural collections happen). Same trusted base as C01.', ref='5 C03'),
+ 'C05': dict(cat='model_checking', tech='trace validation of continuation sessions against the TLA+ reference semantics SchemeCEK (continuation value = captured K) with TLC',
+   text='Sessions built from 15 parametrised continuation templates (escape, re-entry from later top-level forms, operand positions, storage in data, nested extents, generators, coroutines) are run in the real VM and validated form by form by TLC against the CEK machine, in which call/cc captures the continuation K as a value and invoking it replaces K while the store is kept.',
+   note='Same trusted base as C01. Continuations are always invoked with exactly one value.', ref='5 C05'),
+ 'C07': dict(cat='model_checking', tech='trace validation of failure histories and their effects-only twin histories against SchemeCEK with TLC',
+   text='Histories interleaving failing forms (9 templates incl. blocks of k identical failures, k<=50 quick / 1000 thorough) and probes are run twice in the real VM: as generated, and with each failing form replaced by the effects it completed. TLC validates both against the CEK machine (failure aborts the form, store and globals persist) and checks that every probe - value, failure, error payload, stack trace - is identical in both, that every evaluation starts at the idle stack pointer, and that stack capacity and live cells do not grow over repeated identical failures.',
+   note='Same trusted base as C01. The stack-trace format is not specified; the residue-free twin history is its oracle.', ref='5 C07'),
+ 'C13': dict(cat='model_checking', tech='trace validation of sliced runs (prepare_eval + run_count budgets) against the slice-free TLA+ semantics SchemeCEK with TLC',
+   text='The CEK machine has no slices, so one behaviour is the oracle for every budget sequence: programs of the C01/C05/allocation generators are run with constant budgets 1..64 (each) and with seeded random budget sequences in 1..10^4; TLC validates value, failure, output and later global effects of every sliced run, and that no resumed slice with work left executes zero instructions.',
+   note='Same trusted base as C01; instructions per slice are counted by the verif hook.', ref='5 C13'),
 }
 NOT_YET = {}
 NA = {
